@@ -99,6 +99,12 @@ fn make_jail(tag: &str) -> Jail {
     // a sibling whose name has the destination as prefix
     std::fs::create_dir_all(root.join("outer").join("mid").join("dest-sibling")).unwrap();
     std::fs::write(root.join("outer").join("mid").join("dest-sibling").join("canary.txt"), "sibling").unwrap();
+    // ... and, next to the destination itself, a file and a second directory whose names extend the destination's name
+    if !empty_chain {
+        std::fs::write(root.join("outer").join("mid").join("dest.conf"), "configuration next to the destination").unwrap();
+        std::fs::create_dir_all(root.join("outer").join("mid").join("dest2")).unwrap();
+        std::fs::write(root.join("outer").join("mid").join("dest2").join("secret.key"), "secret").unwrap();
+    }
     let abs_escape = jail.join("escape").to_string_lossy().to_string();
     Jail { jail, dest, abs_escape }
 }
@@ -484,7 +490,7 @@ fn main() {
     let prop = Property {
         id: "C05",
         level: "exploration",
-        rule: "Content-Location strings from the grammar prefix{9} x 1..d segments{10} (d=3 quick, 4 thorough: complete enumeration) plus seeded random strings are announced by a hand-built FDT and delivered through a real session to the filesystem writer with three endings (complete, MD5 error, interrupted); oracle 1: before/after snapshot (path, type, size, content hash) of a jail three levels above the destination with canaries at every level, a prefix-sibling and filesystem-root litter scan - nothing outside the destination may be created, modified or deleted; oracle 2 (strace sample): every mutating file syscall issued during the session targets a path that normalises under the destination, successful or not; a case is one location (3 sessions), non-trivial when a file was written inside the destination or a syscall was judged; distinct = distinct locations",
+        rule: "Content-Location strings from the grammar prefix{9} x 1..d segments{10} (d=3 quick, 4 thorough: complete enumeration) plus all locations of 1..d' segments (d'=3 quick, 4 thorough) over {.., ., names of the siblings whose names extend the destination's name, canary names} and seeded random strings are announced by a hand-built FDT and delivered through a real session to the filesystem writer with three endings (complete, MD5 error, interrupted); oracle 1: before/after snapshot (path, type, size, content hash) of a jail three levels above the destination with canaries at every level, a prefix-sibling and filesystem-root litter scan - nothing outside the destination may be created, modified or deleted; oracle 2 (strace sample): every mutating file syscall issued during the session targets a path that normalises under the destination, successful or not; a case is one location (3 sessions), non-trivial when a file was written inside the destination or a syscall was judged; distinct = distinct locations",
         assumptions: vec![
             "no symlinks are planted inside the destination (a FLUTE sender cannot create them)".into(),
             "reading / stat outside the destination is not a violation".into(),
@@ -510,6 +516,42 @@ fn main() {
             let shown = judge_location(&tag, &|j, tok| grammar_location(&j.abs_escape, tok, i, depth), &mut cr);
             cr.shape = Some(util::fnv(&tag));
             if i % 997 == 0 {
+                cr.sample = Some(json!({"location": shown, "endings": ["complete", "error", "interrupted"]}));
+            }
+            limit(&mut cr.violations, 3);
+            cr
+        }));
+        // ---- locations that leave the destination with '..' and re-enter a SIBLING whose name starts with the
+        // destination's own name (dest-sibling/, dest2/, dest.conf): a confinement test that compares path strings
+        // instead of path components lets them through. Complete enumeration to a depth.
+        const SIB: [&str; 8] = ["..", "dest-sibling", "dest.conf", "dest2", "canary.txt", "secret.key", "name", "."];
+        let sdepth = ctx.tier.pick(3usize, 4);
+        let per_prefix: usize = (1..=sdepth).map(|d| SIB.len().pow(d as u32)).sum();
+        gens.push(Gen::new("prefix_siblings", PREFIXES.len() * per_prefix, move |_ctx, i| {
+            let mut cr = CaseResult::default();
+            let p = PREFIXES[i % PREFIXES.len()];
+            let mut x = i / PREFIXES.len();
+            let mut len = 1;
+            while x >= SIB.len().pow(len as u32) {
+                x -= SIB.len().pow(len as u32);
+                len += 1;
+            }
+            let mut parts = vec![];
+            for _ in 0..len {
+                parts.push(SIB[x % SIB.len()]);
+                x /= SIB.len();
+            }
+            let location = format!("{}{}", p, parts.join("/"));
+            // the siblings sit next to the destination only in the layout with canaries
+            let mut n = 0;
+            let mut tag = format!("s{}", i);
+            while empty_chain_of(&tag) {
+                n += 1;
+                tag = format!("s{}x{}", i, n);
+            }
+            let shown = judge_location(&tag, &|_j, _tok| location.clone(), &mut cr);
+            cr.shape = Some(util::fnv(&location));
+            if i % 499 == 0 {
                 cr.sample = Some(json!({"location": shown, "endings": ["complete", "error", "interrupted"]}));
             }
             limit(&mut cr.violations, 3);
